@@ -307,6 +307,24 @@ theorem C18_ex_zincrby (cur : List (Int × Bytes)) (d : Int) (m : Bytes) (hd : (
       (zInsert ((cur.find? fun q => q.2 == m).elim 0 Prod.fst + d, m) (cur.filter fun q => q.2 != m),
        (cur.find? fun q => q.2 == m).elim 0 Prod.fst + d) := Ex.zIncBy_eq cur d m hd
 
+/-- HSET / HSETNX on an existing hash: `Hash.Set` – look the field up, refuse under NX, assign, report whether the field is
+new – is `refHandle`'s case analysis (the map as its entries) -/
+theorem C18_ex_hset (h : List (Bytes × Bytes)) (f v : Bytes) (nx : Bool) :
+    Ex.hashSet h f v nx = (match h.lookup f with
+      | some _ => if nx then (h, 0) else (h.map (fun p => if p.1 == f then (f, v) else p), 0)
+      | none => (h ++ [(f, v)], 1)) := Ex.hashSet_eq h f v nx
+
+/-- HDEL: the loop `if present { delete; removed++ }` over the fields removes exactly the fields that go and counts each
+once, however often the request names it – `refHandle`'s `gone` -/
+theorem C18_ex_hdel (h : List (Bytes × Bytes)) (fields : List Bytes) :
+    Ex.hashDel h fields =
+      (let gone := (dedup fields).filter fun f => (h.lookup f).isSome
+       (h.filter fun p => !gone.contains p.1, gone.length)) := Ex.hashDel_eq h fields
+
+example : Ex.hashDel [(b!"a", b!"1"), (b!"b", b!"2"), (b!"c", b!"3")] [b!"b", b!"x", b!"b", b!"a"] = ([(b!"c", b!"3")], 2) ∧
+    Ex.hashSet [(b!"a", b!"1")] b!"a" b!"9" true = ([(b!"a", b!"1")], 0) ∧
+    Ex.hashSet [(b!"a", b!"1")] b!"a" b!"9" false = ([(b!"a", b!"9")], 0) := by decide
+
 /-- **The source is the one that was transcribed** (regenerated on every run): the container algorithms of
 `examples/go-redisd/server/{list,set,zset}.go` have the fingerprints `Model/ExStore` was written from -/
 theorem C18_source_is_the_modelled_one :
